@@ -144,6 +144,9 @@ class Layout:
                 # indentation
                 if style == 'lines' or rng.random() < 0.5:
                     parts.append(rng.choice((b'', b' ', b'  ', b'    ', b'\t', b' \t ', b'      ')))
+                if style in ('wild', 'normal') and rng.random() < 0.06:
+                    # the line begins with a one-line block comment, code follows it (`--[[debug]] print(x)`)
+                    parts.append(block_comment(rng, multiline=False) + rng.choice((b' ', b'', b'  ')))
             return self._guard(b''.join(parts), prev, nxt)
         # same-line separator
         if prev is None or nxt is None:
